@@ -746,6 +746,10 @@ func runC18(c *engine.Ctx) {
 
 	// ---- R18 ----
 	checkTotalNumberParsing(c, "R18")
+
+	// ---- R19 the definition the server gets is the one of the wrapper that is still current (shared with C19.R8) ----
+	checkEventsUnderLock(c, engine.AnalyzeLocks(c.P), "R19")
+	checkDecodersSeeLoadedBytes(c, "R20")
 }
 
 // checkFlagTargets (R9): "the same configuration given through command-line flags yields identical structures". Every
@@ -1326,4 +1330,52 @@ func checkTotalNumberParsing(c *engine.Ctx, rule string) {
 		})
 	}
 	c.Floor(n, 3)
+}
+
+// checkDecodersSeeLoadedBytes (R20): the three formats mean the same because all of them are handed, unedited, to their
+// library decoder (TOML re-encoded as JSON by the libraries themselves). Whatever LoadConfigure passes to
+// json.NewDecoder / yaml.Unmarshal* derives from its input only through library calls — a repository function that
+// rewrites the document first (comment stripping, normalisation) makes one format mean something else than the others
+// in the corners the rewrite gets wrong.
+func checkDecodersSeeLoadedBytes(c *engine.Ctx, rule string) {
+	c.Rule(rule, "in config.LoadConfigure the document given to json.NewDecoder / yaml.Unmarshal / yaml.UnmarshalStrict reaches it from the function's input through library functions only (toml.Unmarshal → json.Marshal, bytes.NewBuffer): no function of this repository edits it on the way")
+	p := c.P
+	f := fn(c, "pkg/config.LoadConfigure")
+	if f == nil {
+		return
+	}
+	n := 0
+	for _, g := range append([]*ssa.Function{f}, allAnon(f)...) {
+		g := g
+		engine.ForEachInstr(g, func(in ssa.Instruction) {
+			call, ok := in.(*ssa.Call)
+			if !ok {
+				return
+			}
+			o := engine.CalleeObj(call)
+			if o == nil || o.Pkg() == nil {
+				return
+			}
+			isDec := (o.Pkg().Path() == "encoding/json" && o.Name() == "NewDecoder") || (strings.HasSuffix(o.Pkg().Path(), "/yaml") && strings.HasPrefix(o.Name(), "Unmarshal"))
+			if !isDec || len(call.Call.Args) == 0 {
+				return
+			}
+			n++
+			src := engine.DeepSources(p, call.Call.Args[0])
+			editor := ""
+			for fo := range src.Calls {
+				if fo.Pkg() != nil && engine.IsRepoPkg(fo.Pkg().Path()) {
+					editor = fo.Pkg().Name() + "." + fo.Name()
+				}
+			}
+			for fo := range src.Followed {
+				if fo.Pkg() != nil && engine.IsRepoPkg(fo.Pkg().Path()) {
+					editor = fo.Pkg().Name() + "." + fo.Name()
+				}
+			}
+			c.Check(editor == "", fmt.Sprintf("pkg/config.LoadConfigure>%s#%d", o.Name(), n), in.Pos(), len(src.Values), nil,
+				"the decoder receives the loaded document as the libraries produced it (it passes through %s of this repository first: the formats no longer mean the same where that rewrite errs)", editor)
+		})
+	}
+	c.Floor(n, 2)
 }
